@@ -17,10 +17,10 @@ static bool callSetter(Circuit& c, int which) {   // returns true if the setter 
   return false;
 }
 extern "C" void harness() {
-  int infeasible = __verif_choice(2);
+  int infeasible = __verif_choice(3);   // 0: feasible, 1: cell 0 cannot be placed, 2: cell 1 cannot be placed (cell 0 can, and moves)
   Circuit c(2);
   int x0 = __verif_nondet_int(-8, 48); int x1 = __verif_nondet_int(-8, 48);
-  c.setCellWidth({infeasible ? 50 : 4, 6}); c.setCellHeight({10, 10}); c.setCellX({x0, x1}); c.setCellY({0, 10});
+  c.setCellWidth({infeasible == 1 ? 50 : 4, infeasible == 2 ? 50 : 6}); c.setCellHeight({10, 10}); c.setCellX({x0, x1}); c.setCellY({0, 10});
   std::vector<Row> rows; rows.push_back(Row(0, 40, 0, 10, CellOrientation::N)); rows.push_back(Row(0, 40, 10, 20, CellOrientation::FS));
   c.setRows(rows);
   c.addNet({0, 1}, {1, 2}, {3, 4});
